@@ -275,10 +275,21 @@ fn reject_strategy() -> BS<Reject> {
 }
 
 fn reject_known(c: &Reject) -> Option<&'static str> {
-    if c.m == 2 && is_leap(c.y as i64) && (c.d == 30 || c.d == 31) {
-        Some("KF-feb30-leap-year")
-    } else {
-        None
+    if !(c.m == 2 && is_leap(c.y as i64) && (c.d == 30 || c.d == 31)) {
+        return None;
+    }
+    // the day must be the only invalid field ...
+    let mut other = c.clone();
+    other.d = 29;
+    if statement_invalid(&other) == Some(true) {
+        return None;
+    }
+    // ... and the accepted value must be what the finding predicts: the same time on 1 / 2 March
+    let ts = SCALES[c.s];
+    let c = c.clone();
+    match guard(move || (Epoch::maybe_from_gregorian(c.y, c.m, c.d, c.hh, c.mm, c.ss, c.ns, ts), Epoch::maybe_from_gregorian(c.y, 3, c.d - 29, c.hh, c.mm, c.ss, c.ns, ts))) {
+        Ok((Ok(a), Ok(b))) if a.duration.to_parts() == b.duration.to_parts() && a.time_scale == b.time_scale => Some("KF-feb30-leap-year"),
+        _ => None,
     }
 }
 
